@@ -30,8 +30,8 @@ package hdkeychain
 //@   modifies nothing
 
 //@ func hdkeychain.(*ExtendedKey).pubKeyBytes
-//@   ensures !k.isPrivate ==> sameobj(result, k.key) && len(result) == len(k.key)
-//@   ensures k.isPrivate ==> sameobj(result, k.pubKey) && len(result) == len(k.pubKey) && (old(len(k.pubKey)) == 0 ==> fresh(result) && len(result) == 33)
+//@   ensures !k.isPrivate ==> sameobj(result, k.key) && result.off == k.key.off && len(result) == len(k.key)
+//@   ensures k.isPrivate ==> sameobj(result, k.pubKey) && result.off == k.pubKey.off && len(result) == len(k.pubKey) && (old(len(k.pubKey)) == 0 ==> fresh(result) && len(result) == 33)
 //@   ensures k.isPrivate && old(len(k.pubKey)) != 0 ==> sameobj(k.pubKey, old(k.pubKey))
 //@   modifies k.pubKey
 
